@@ -11,8 +11,10 @@ else
   git -C "$wt" apply "$(realpath "$what")" || { echo "patch does not apply"; git -C /repo worktree remove --force "$wt"; exit 3; }
 fi
 for id in "$@"; do
+  cp /verif/evidence/$id.json /tmp/.ev-$id-$$.json 2>/dev/null   # evidence must come from runs on the unchanged tree
   out=$(cd /verif && JINJA_REPO="$wt" timeout 3000 ./check "$id" --tier "${TIER:-quick}" 2>&1); rc=$?
   echo "== $id rc=$rc"; echo "$out" | grep -E "VIOLATION|KNOWN|HARNESS|seed=" | head -6
+  mv /tmp/.ev-$id-$$.json /verif/evidence/$id.json 2>/dev/null
   echo "$out" | grep -E "^  C[0-9]" | head -3 | cut -c1-400
 done
 git -C /repo worktree remove --force "$wt"
